@@ -810,6 +810,13 @@ func (b *outlierDetectionBalancer) failurePercentageAlgorithm() {
 
 // Caller must hold b.mu.
 func (b *outlierDetectionBalancer) ejectEndpoint(epInfo *endpointInfo, detectionMethod string) {
+	if !epInfo.latestEjectionTimestamp.IsZero() {
+		// Already ejected, e.g. by the success rate algorithm earlier in this
+		// run of the interval timer algorithm. Ejecting it a second time would
+		// count it twice in numEndpointsEjected (which is decremented only
+		// once when it is unejected) and bump its multiplier twice.
+		return
+	}
 	b.numEndpointsEjected++
 	epInfo.latestEjectionTimestamp = b.timerStartTime
 	epInfo.ejectionTimeMultiplier++
